@@ -167,6 +167,16 @@ theorem cli_table_generated :
      Generated.cliOptions.all (fun x => modelCli.contains x || x.1 == ["additional-help".toList.map Char.toNat])) = true := by
   decide +kernel
 
+/-- the one-letter names of the model ARE those regenerated from `#[arg(short)]` / `#[arg(short = 'k')]`
+(`-a`, `--additional-help`, apart) -/
+def modelShorts : List (List Nat × Nat) :=
+  Args.Opt.all.filterMap (fun o => o.short.map (fun c => ((o.names.headD "").toList.map Char.toNat, c.toNat)))
+
+theorem cli_shorts_generated :
+    (modelShorts.all (fun x => Generated.cliShorts.contains x) &&
+     Generated.cliShorts.all (fun x => modelShorts.contains x || x.1 == "additional-help".toList.map Char.toNat)) = true := by
+  decide +kernel
+
 /-- the values the enumerated options accept -/
 theorem cli_enums_generated :
     Generated.onErrorValues = ["ignore", "panic", "stderr", "stdout"].map (fun n => n.toList.map Char.toNat) ∧
@@ -182,10 +192,11 @@ theorem argument_order_irrelevant (a b : List Str)
   Args.parseArgs_order_independent a b h
 
 /-- in the form a user reads: swapping two neighbouring arguments of different families changes nothing — on command
-lines without a BARE optional-valued option (`--merge` / `--group-by` / `--combine` written without `=value`) -/
+lines whose arguments are one token each (`Args.oneToken`: a positional, `--flag`, `--name=value`; an option written
+without an attached value takes the argument after it, and the two must then move together) -/
 theorem swap_neighbours (l₁ l₂ : List Str) (s₁ s₂ : Str)
     (h : Args.sameFamily (Args.lex s₁) (Args.lex s₂) = false)
-    (hb : Args.NoBareOptValue (l₁ ++ s₁ :: s₂ :: l₂)) :
+    (hb : Args.OneTokenEach (l₁ ++ s₁ :: s₂ :: l₂)) :
     Args.parseArgs (l₁ ++ s₁ :: s₂ :: l₂) = Args.parseArgs (l₁ ++ s₂ :: s₁ :: l₂) :=
   Args.swap_adjacent l₁ l₂ s₁ s₂ h hb
 
@@ -198,6 +209,42 @@ theorem bare_merge_takes_the_next_argument :
     Args.lexAll ["f.json".toList, "--merge".toList] = [.file "f.json".toList, .opt .group none] ∧
     Args.lexAll ["--merge".toList, "--unique".toList] = [.opt .group none, .opt .unique none] :=
   Args.bare_merge_takes_next
+
+/-- SPELLINGS: an option that takes a value gives the same token — hence the same configuration and the same run —
+however it is written: `--name=value`, `--alias=value`, `--name value`, `-c value`, `-c=value`, `-cvalue` (a value that
+is to stand in an argument of its own must not look like an option; an attached value must not be empty or start
+with `=`) -/
+theorem option_spellings (n n' v : Str) (c : Char) (o : Args.Opt) (rest : List Str)
+    (hn : Args.findOpt n = some o) (hp : Args.plainName n = true)
+    (hn' : Args.findOpt n' = some o) (hp' : Args.plainName n' = true)
+    (hc : Args.findShort c = some o) (hk : o.kind ≠ .flag)
+    (hv : Args.isValue v = true) (hv0 : v ≠ []) (hv1 : v.head? ≠ some '=') :
+    let canonical := Args.lexAll (('-' :: '-' :: (n ++ '=' :: v)) :: rest)
+    Args.lexAll (('-' :: '-' :: (n' ++ '=' :: v)) :: rest) = canonical ∧
+    Args.lexAll (('-' :: '-' :: n') :: v :: rest) = canonical ∧
+    Args.lexAll (['-', c] :: v :: rest) = canonical ∧
+    Args.lexAll (('-' :: c :: '=' :: v) :: rest) = canonical ∧
+    Args.lexAll (('-' :: c :: v) :: rest) = canonical :=
+  Args.option_spellings n n' v c o rest hn hp hn' hp' hc hk hv hv0 hv1
+
+/-- every long name and alias of the table satisfies the side condition of `option_spellings` -/
+theorem option_names_plain : (Args.Opt.all.all fun o => o.names.all fun n => Args.plainName n.toList) = true :=
+  Args.names_plain
+
+/-- a flag letter may lead a cluster: `-uc .a` is `-u -c .a` -/
+theorem flag_cluster (c : Char) (o : Args.Opt) (more : Str) (rest : List Str) (hc : Args.findShort c = some o)
+    (hk : o.kind = .flag) (hm : more ≠ []) (hm1 : more.head? ≠ some '-') :
+    Args.lexAll (('-' :: c :: more) :: rest) = .opt o none :: Args.lexAll (('-' :: more) :: rest) :=
+  Args.short_flag_first c o more rest hc hk hm hm1
+
+/-- what clap does not take as the value of the option before it: an argument that starts with `-` (the lone `-` is
+a value); and a valued letter ends its cluster -/
+theorem value_must_not_look_like_an_option :
+    (Args.parseArgs ["--skip".toList, "-1".toList]).isNone = true ∧
+    (Args.parseArgs ["--choose".toList, "-x".toList]).isNone = true ∧
+    Args.lexAll ["--choose".toList, "-".toList] = [.opt .select (some "-".toList)] ∧
+    Args.lexAll ["-cu".toList, ".a".toList] = [.opt .select (some "u".toList), .file ".a".toList] :=
+  Args.value_must_not_look_like_an_option
 
 /-- hence the whole run: same result, same standard output, same standard error -/
 theorem run_argument_order_irrelevant (orc : Oracles) (a b : List Str)
